@@ -115,24 +115,30 @@ structure CallRel {σ} (a : OpObs × DevRun × σ) (b : (MacState × σ) × OutC
   rng : a.2.2 = b.1.2
   obs : ObsRel a.1 b.2
 
-theorem asyncOp_sim {σ} (g : Rng σ) (cfg : DevCfg) (r : DevRun) (rs : σ) (op : AsyncOp) :
-    Sim (asyncOp g cfg r rs op) (stepC g (r.m, rs) (abstractOp cfg op)) CallRel := by
+theorem asyncOp_simX {σ} {X : Fault → Prop} (hXh : X (.hang "between_windows")) (g : Rng σ) (cfg : DevCfg) (r : DevRun)
+    (rs : σ) (op : AsyncOp)
+    (hXd : ∀ join second e, startDelay (macRxDelay r.m join second) cfg.txMs cfg.lead = .error e → X e) :
+    SimX X (asyncOp g cfg r rs op) (stepC g (r.m, rs) (abstractOp cfg op)) CallRel := by
   cases op with
   | send data port conf script =>
     simp only [asyncOp, abstractOp]
-    refine Sim.map_left (f := fun x => (({ res := some x.1, frame := sentFrame g r.m data port conf rs } : OpObs), x.2.1, x.2.2))
-      (asyncSend_sim g cfg { r with script := script } data port conf rs) ?_
+    refine SimX.map_left (f := fun x => (({ res := some x.1, frame := sentFrame g r.m data port conf rs } : OpObs), x.2.1, x.2.2))
+      (asyncSend_sim hXh g cfg { r with script := script } data port conf rs (hXd false)) ?_
     intro a b _ hst hrel
     exact ⟨hrel.m, hrel.rng, hrel.resp, stepC_send_frame g r.m rs cfg script data port conf b.1 b.2 hst⟩
   | join script =>
     simp only [asyncOp, abstractOp]
-    refine Sim.map_left (f := fun x => (({ res := some x.1, frame := none } : OpObs), x.2.1, x.2.2))
-      (asyncJoin_sim g cfg { r with script := script } rs) ?_
+    refine SimX.map_left (f := fun x => (({ res := some x.1, frame := none } : OpObs), x.2.1, x.2.2))
+      (asyncJoin_sim hXh g cfg { r with script := script } rs (hXd true)) ?_
     intro a b _ hst hrel
     exact ⟨hrel.m, hrel.rng, hrel.resp, (stepC_join_frame g _ b.1 cfg script b.2 hst).symm⟩
   | abp da nwk app => exact ⟨_, rfl, rfl, rfl, rfl, rfl⟩
   | setAdr on => exact ⟨_, rfl, rfl, rfl, rfl, rfl⟩
   | setDr dr => exact ⟨_, rfl, rfl, rfl, rfl, rfl⟩
+
+theorem asyncOp_sim {σ} (g : Rng σ) (cfg : DevCfg) (r : DevRun) (rs : σ) (op : AsyncOp) :
+    SimX Extra (asyncOp g cfg r rs op) (stepC g (r.m, rs) (abstractOp cfg op)) CallRel :=
+  asyncOp_simX extra_hang g cfg r rs op (fun _ _ e he => startDelay_extra _ _ _ e he)
 
 /-- pointwise relation of two lists of equal length -/
 inductive AllRel {α β : Type} (R : α → β → Prop) : List α → List β → Prop
@@ -145,22 +151,33 @@ structure SessRel {σ} (a : List OpObs × DevRun × σ) (b : (MacState × σ) ×
   rng : a.2.2 = b.1.2
   obs : AllRel ObsRel a.1 b.2
 
-/-- **every session of the async front-end is simulated by the extended history of its calls** -/
-theorem asyncOps_sim {σ} (g : Rng σ) (cfg : DevCfg) (r : DevRun) (rs : σ) (ops : List AsyncOp) :
-    Sim (asyncOps g cfg r rs ops) (runC g (r.m, rs) (ops.map (abstractOp cfg))) SessRel := by
+/-- sessions, for any set `X` of front-end failures and any invariant `I` of the history's steps that
+confines the failures of the timer arithmetic to `X` -/
+theorem asyncOps_simX {σ} {X : Fault → Prop} (hXh : X (.hang "between_windows")) (g : Rng σ) (cfg : DevCfg)
+    (I : MacState → Prop)
+    (hstep : ∀ m s ev ms' oc, I m → stepC g (m, s) ev = .ok (ms', oc) → I ms'.1)
+    (hX : ∀ m join second e, I m → startDelay (macRxDelay m join second) cfg.txMs cfg.lead = .error e → X e)
+    (r : DevRun) (rs : σ) (ops : List AsyncOp) (hI : I r.m) :
+    SimX X (asyncOps g cfg r rs ops) (runC g (r.m, rs) (ops.map (abstractOp cfg))) SessRel := by
   induction ops generalizing r rs with
-  | nil => exact Sim.pure ⟨rfl, rfl, .nil⟩
+  | nil => exact SimX.pure ⟨rfl, rfl, .nil⟩
   | cons op rest ih =>
     unfold asyncOps
     simp only [List.map_cons, runC]
-    refine Sim.bind (asyncOp_sim g cfg r rs op) ?_
-    intro ⟨ob, r1, rs1⟩ ⟨⟨m1, s1⟩, oc⟩ hrel
+    refine SimX.bind_eq (asyncOp_simX hXh g cfg r rs op (fun join second e he => hX r.m join second e hI he)) ?_
+    intro ⟨ob, r1, rs1⟩ ⟨⟨m1, s1⟩, oc⟩ _ hst hrel
     have hm : r1.m = m1 := hrel.m
     have hr : rs1 = s1 := hrel.rng
     subst hm hr
-    refine Sim.bind (ih r1 rs1) ?_
+    refine SimX.bind (ih r1 rs1 (hstep r.m rs _ _ oc hI hst)) ?_
     intro ⟨obs, r2, rs2⟩ ⟨ms2, ocs⟩ hrel2
-    exact Sim.pure ⟨hrel2.m, hrel2.rng, .cons hrel.obs hrel2.obs⟩
+    exact SimX.pure ⟨hrel2.m, hrel2.rng, .cons hrel.obs hrel2.obs⟩
+
+/-- **every session of the async front-end is simulated by the extended history of its calls** -/
+theorem asyncOps_sim {σ} (g : Rng σ) (cfg : DevCfg) (r : DevRun) (rs : σ) (ops : List AsyncOp) :
+    SimX Extra (asyncOps g cfg r rs ops) (runC g (r.m, rs) (ops.map (abstractOp cfg))) SessRel :=
+  asyncOps_simX extra_hang g cfg (fun _ => True) (fun _ _ _ _ _ _ _ => trivial)
+    (fun _ _ _ e _ he => startDelay_extra _ _ _ e he) r rs ops trivial
 
 /-! ## back to `History.run` -/
 
